@@ -24,7 +24,7 @@ type cval struct {
 func (c *cval) Close() error { c.closed.Add(1); return nil }
 
 type UOp struct {
-	Kind string `json:"kind"` // install | get | new | pollnop | other | err
+	Kind string `json:"kind"` // install | get | new | new-during-install | pollnop | other | err
 	U    int    `json:"u"`    // which updater (mod count)
 	Fail bool   `json:"fail"` // install: the builder rejects this version's bytes
 }
@@ -55,10 +55,25 @@ func runC15(t *testing.T, c UpdaterCase) (*h.Violation, h.Info) {
 	fails := map[string]bool{}
 	var ups []*upd
 	installed := string(valueOf("w", 1))
-	mk := func(step int) *h.Violation {
+	ver := uint32(1)
+	mk := func(step int, installDuring bool) *h.Violation {
 		u := &upd{}
 		builder := func(b []byte) (*cval, error) {
 			u.builds++
+			if installDuring {
+				// a poll installs a newer version while NewUpdater is inside its first build
+				installDuring = false
+				ver++
+				nb := string(valueOf("w", ver))
+				svc.Set("w", ver, []byte(nb))
+				if err := st.Refresh(context.Background()); err == nil {
+					installed = nb
+					for _, o := range ups {
+						o.pending = true
+					}
+					u.pending = true
+				}
+			}
 			if fails[string(b)] {
 				return nil, errors.New("builder rejects this value")
 			}
@@ -77,16 +92,15 @@ func runC15(t *testing.T, c UpdaterCase) (*h.Violation, h.Info) {
 			return h.V("harness", "step %d: NewUpdater: %v", step, err)
 		}
 		u.u, u.cur = uu, u.built[len(u.built)-1]
-		if u.cur.from != installed {
+		if u.cur.from != installed && !u.pending {
 			return h.V("get-returns-newest-installed", "step %d: new updater starts from %q, installed is %q", step, u.cur.from, installed)
 		}
 		ups = append(ups, u)
 		return nil
 	}
-	if v := mk(-1); v != nil {
+	if v := mk(-1, false); v != nil {
 		return v, info
 	}
-	ver := uint32(1)
 	sinceGet := map[*upd]int{}
 	for i, o := range c.Ops {
 		switch o.Kind {
@@ -120,10 +134,19 @@ func runC15(t *testing.T, c UpdaterCase) (*h.Violation, h.Info) {
 				return h.V("harness", "Refresh: %v", err), info
 			}
 		case "new":
-			if v := mk(i); v != nil {
+			if v := mk(i, false); v != nil {
 				return v, info
 			}
 			info.Class("updater-created-mid-history")
+		case "new-during-install":
+			if fails[installed] {
+				continue
+			}
+			if v := mk(i, true); v != nil {
+				return v, info
+			}
+			info.Class("updater-created-while-install-in-flight")
+			info.NonTrivial = true
 		case "err":
 			if len(ups) == 0 {
 				continue
@@ -213,7 +236,7 @@ var c15 = &h.Campaign[UpdaterCase]{
 	Quick: 6000, Thorough: 300000,
 	Gen: func(rt *rapid.T) UpdaterCase {
 		return UpdaterCase{Ops: rapid.SliceOfN(rapid.Custom(func(rt *rapid.T) UOp {
-			o := UOp{Kind: rapid.SampledFrom([]string{"install", "install", "install", "get", "get", "get", "new", "pollnop", "other", "err"}).Draw(rt, "kind"), U: rapid.IntRange(0, 3).Draw(rt, "u")}
+			o := UOp{Kind: rapid.SampledFrom([]string{"install", "install", "install", "get", "get", "get", "new", "new-during-install", "pollnop", "other", "err"}).Draw(rt, "kind"), U: rapid.IntRange(0, 3).Draw(rt, "u")}
 			if o.Kind == "install" {
 				o.Fail = rapid.IntRange(0, 3).Draw(rt, "fail") == 0
 			}
